@@ -224,161 +224,12 @@ def searchInStaticDictionary (lbs : Nat) (items : List DictItem) (data : ByteArr
     | none => none
     | some _ => dictLoop lbs data cm maxLength maxBackward maxDistance items false out c
 
-/-! ## BasicHasher::FindLongestMatch -/
+/-! ## shared pieces of the three `FindLongestMatch` bodies
 
-namespace Basic
+The bodies are written as chains of small functions (one per source statement group), so that
+each can be reasoned about on its own. -/
 
-/-- the candidate test shared by the sweep loop iterations -/
-structure LoopSt where
-  bestScore : Nat
-  bestLen : Nat
-  cc : Nat          -- `compare_char`
-  out : SR
-  found : Bool
-deriving Repr, Inhabited
-
-/-- one iteration of `for prev_ix_ref in buckets[key..][..bucket_sweep]` -/
-def sweepStep (lbs : Nat) (data : ByteArray) (mask curIx cm maxLength maxBackward : Nat) (prev : Nat)
-    (s : LoopSt) : Option LoopSt :=
-  let backward := wsub curIx prev
-  let prevM := prev &&& (mask % U32)
-  match byteAt data (prevM + s.bestLen) with
-  | none => none
-  | some b =>
-    if s.cc ≠ b then some s
-    else if backward = 0 ∨ backward > maxBackward then some s
-    else
-      match findMatchLengthWithLimitMin4 data prevM cm maxLength with
-      | none => none
-      | some len =>
-        if len ≠ 0 then
-          let score := scoreBackward lbs len backward
-          if s.bestScore < score then
-            match byteAt data (cm + len) with
-            | none => none
-            | some cc =>
-              some { bestScore := score, bestLen := len, cc := cc,
-                     out := { s.out with len := len, distance := backward, score := score }, found := true }
-          else some s
-        else some s
-
-def sweepLoop (lbs : Nat) (data : ByteArray) (mask curIx cm maxLength maxBackward : Nat) (b : Tab)
-    (key : Nat) : Nat → Nat → LoopSt → Option LoopSt
-  | 0, _, s => some s
-  | n + 1, j, s =>
-    match rd b (key + j) with
-    | none => none
-    | some prev =>
-      match sweepStep lbs data mask curIx cm maxLength maxBackward prev s with
-      | none => none
-      | some s => sweepLoop lbs data mask curIx cm maxLength maxBackward b key n (j + 1) s
-
-/-- `fn FindLongestMatch` of `BasicHasher<T>`; `useDict` = `USE_DICTIONARY() != 0`,
-`dict` = `dictionary.is_some()` together with the oracle's slots; `gap = 0` -/
-def findLongestMatch (P : BasicP) (useDict : Bool) (lbs : Nat) (dict : Option (List DictItem))
-    (data : ByteArray) (mask : Nat) (cache : List Int) (curIx maxLength maxBackward maxDistance : Nat)
-    (out : SR) (b : Tab) (c : Common) : Option (Bool × SR × Tab × Common) :=
-  let bestLenIn := out.len
-  let cm := curIx &&& mask
-  match BV.Hasher.Basic.hashAt P data cm with
-  | none => none
-  | some key =>
-  match byteAt data (cm + bestLenIn) with
-  | none => none
-  | some cc0 =>
-  match cache[0]? with
-  | none => none
-  | some c0 =>
-  let cachedBackward := i32ToUsize c0
-  let prevIx := wsub curIx cachedBackward
-  let out := { out with lenXCode := 0 }
-  -- phase 1: the last distance
-  let phase1 : Option (Option (Bool × SR × Tab × Common) × LoopSt) :=
-    if prevIx < curIx ∧ cachedBackward ≤ maxBackward then
-      let prevM := prevIx &&& (mask % U32)
-      match byteAt data (prevM + bestLenIn) with
-      | none => none
-      | some pb =>
-        if cc0 = pb then
-          match findMatchLengthWithLimitMin4 data prevM cm maxLength with
-          | none => none
-          | some len =>
-            if len ≠ 0 then
-              let score := scoreLast lbs len
-              let out := { out with len := len, distance := cachedBackward, score := score }
-              match byteAt data (cm + len) with
-              | none => none
-              | some cc =>
-                if P.sweep = 1 then
-                  match wr b key (curIx % U32) with
-                  | none => none
-                  | some b => some (some (true, out, b, c), ⟨score, len, cc, out, true⟩)
-                else some (none, ⟨score, len, cc, out, true⟩)
-            else some (none, ⟨out.score, bestLenIn, cc0, out, false⟩)
-        else some (none, ⟨out.score, bestLenIn, cc0, out, false⟩)
-    else some (none, ⟨out.score, bestLenIn, cc0, out, false⟩)
-  match phase1 with
-  | none => none
-  | some (some r, _) => some r
-  | some (none, s) =>
-  -- phase 2: the bucket
-  let phase2 : Option (Option (Bool × SR × Tab × Common) × LoopSt × Tab) :=
-    if P.sweep = 1 then
-      match rd b key with
-      | none => none
-      | some prev =>
-        match wr b key (curIx % U32) with
-        | none => none
-        | some b =>
-          let backward := wsub curIx prev
-          let prevM := prev &&& (mask % U32)
-          match byteAt data (prevM + bestLenIn) with
-          | none => none
-          | some pb =>
-            if s.cc ≠ pb then some (some (false, s.out, b, c), s, b)
-            else if backward = 0 ∨ backward > maxBackward then some (some (false, s.out, b, c), s, b)
-            else
-              match findMatchLengthWithLimitMin4 data prevM cm maxLength with
-              | none => none
-              | some len =>
-                if len ≠ 0 then
-                  let o : SR := { s.out with len := len, distance := backward, score := scoreBackward lbs len backward }
-                  some (some (true, o, b, c), s, b)
-                else some (none, s, b)
-    else
-      -- `self.buckets_.slice().split_at(key).1[..bucket_sweep]`
-      if key + P.sweep ≤ b.size then
-        match sweepLoop lbs data mask curIx cm maxLength maxBackward b key P.sweep 0 s with
-        | none => none
-        | some s => some (none, s, b)
-      else none
-  match phase2 with
-  | none => none
-  | some (some r, _, _) => some r
-  | some (none, s, b) =>
-  -- static dictionary
-  let dictRes : Option (Bool × SR × Common) :=
-    match dict with
-    | some items =>
-      if useDict ∧ ¬ s.found then
-        searchInStaticDictionary lbs items data cm maxLength maxBackward maxDistance s.out c
-      else some (s.found, s.out, c)
-    | none => some (s.found, s.out, c)
-  match dictRes with
-  | none => none
-  | some (found, out, c) =>
-    if P.sweep = 0 then none          -- `wrapping_rem(0)`
-    else
-      match wr b (key + (curIx >>> 3) % P.sweep) (curIx % U32) with
-      | none => none
-      | some b => some (found, out, b, c)
-
-end Basic
-
-/-! ## AdvHasher::FindLongestMatch -/
-
-namespace Adv
-
+/-- running state of a search: `best_score`, `best_len`, `out`, `is_match_found` -/
 structure LoopSt where
   bestScore : Nat
   bestLen : Nat
@@ -395,15 +246,207 @@ def guard (data : ByteArray) (mask cm prevM bestLen : Nat) : Option Bool :=
     | some a, some b => some (a ≠ b)
     | _, _ => none
 
+/-- `out.len = len; out.distance = backward; out.score = score; best_* = …; is_match_found = true` -/
+def LoopSt.take (s : LoopSt) (len backward score : Nat) : LoopSt :=
+  ⟨score, len, { s.out with len := len, distance := backward, score := score }, true⟩
+
+/-- "skip if `g`, else measure the match and hand its length to `acc`": `g` is the (already
+evaluated) guard, `fml` the match-length call (evaluated only when the guard lets the candidate through) -/
+def tryAt (g : Option Bool) (fml : Unit → Option Nat) (acc : Nat → LoopSt) (s : LoopSt) : Option LoopSt :=
+  match g with
+  | none => none
+  | some true => some s
+  | some false =>
+    match fml () with
+    | none => none
+    | some len => some (acc len)
+
+/-- the tail of a `while` iteration: `r` = (break?, state) of the step, `k` = the remaining iterations -/
+def loopBody {σ : Type} (r : Option (Bool × σ)) (k : σ → Option σ) : Option σ :=
+  match r with
+  | none => none
+  | some (true, s) => some s
+  | some (false, s) => k s
+
+/-! ## BasicHasher::FindLongestMatch -/
+
+namespace Basic
+
+/-- Basic keeps `compare_char` next to the loop state -/
+structure SweepSt where
+  s : LoopSt
+  cc : Nat
+deriving Inhabited
+
+/-- `if len != 0 { let score = …; if best_score < score { …; compare_char = data[cur_ix_masked + best_len] } }` -/
+def sweepAccept (lbs : Nat) (data : ByteArray) (cm len backward : Nat) (t : SweepSt) : Option SweepSt :=
+  if len ≠ 0 then
+    let score := scoreBackward lbs len backward
+    if t.s.bestScore < score then
+      match byteAt data (cm + len) with
+      | none => none
+      | some cc => some ⟨t.s.take len backward score, cc⟩
+    else some t
+  else some t
+
+/-- one iteration of `for prev_ix_ref in buckets[key..][..bucket_sweep]` -/
+def sweepStep (lbs : Nat) (data : ByteArray) (mask curIx cm maxLength maxBackward : Nat) (prev : Nat)
+    (t : SweepSt) : Option SweepSt :=
+  let backward := wsub curIx prev
+  let prevM := prev &&& (mask % U32)
+  match byteAt data (prevM + t.s.bestLen) with
+  | none => none
+  | some b =>
+    if t.cc ≠ b then some t
+    else if backward = 0 ∨ backward > maxBackward then some t
+    else
+      match findMatchLengthWithLimitMin4 data prevM cm maxLength with
+      | none => none
+      | some len => sweepAccept lbs data cm len backward t
+
+def sweepLoop (lbs : Nat) (data : ByteArray) (mask curIx cm maxLength maxBackward : Nat) (b : Tab)
+    (key : Nat) : Nat → Nat → SweepSt → Option SweepSt
+  | 0, _, t => some t
+  | n + 1, j, t =>
+    (rd b (key + j)).bind fun prev =>
+      (sweepStep lbs data mask curIx cm maxLength maxBackward prev t).bind fun t =>
+        sweepLoop lbs data mask curIx cm maxLength maxBackward b key n (j + 1) t
+
+/-- outcome of a phase: either the function returns (`Sum.inl`) or goes on (`Sum.inr`) -/
+abbrev Ret := Bool × SR × Tab × Common
+
+/-- the accepted cached candidate: `best_score = …; out.* = …; compare_char = …; if sweep == 1 { store; return true }` -/
+def phase1Take (P : BasicP) (lbs : Nat) (data : ByteArray) (curIx cm key cachedBackward len : Nat)
+    (out : SR) (b : Tab) (c : Common) : Option (Ret ⊕ SweepSt) :=
+  let score := scoreLast lbs len
+  let s : LoopSt := (⟨out.score, out.len, out, false⟩ : LoopSt).take len cachedBackward score
+  match byteAt data (cm + len) with
+  | none => none
+  | some cc =>
+    if P.sweep = 1 then
+      match wr b key (curIx % U32) with
+      | none => none
+      | some b => some (.inl (true, s.out, b, c))
+    else some (.inr ⟨s, cc⟩)
+
+/-- `if prev_ix < cur_ix && cached_backward <= max_backward { … }` (the last distance is tried first) -/
+def phase1 (P : BasicP) (lbs : Nat) (data : ByteArray) (mask curIx cm key maxLength maxBackward
+    cachedBackward cc0 : Nat) (out : SR) (b : Tab) (c : Common) : Option (Ret ⊕ SweepSt) :=
+  let none' : Option (Ret ⊕ SweepSt) := some (.inr ⟨⟨out.score, out.len, out, false⟩, cc0⟩)
+  let prevIx := wsub curIx cachedBackward
+  if prevIx < curIx ∧ cachedBackward ≤ maxBackward then
+    let prevM := prevIx &&& (mask % U32)
+    match byteAt data (prevM + out.len) with
+    | none => none
+    | some pb =>
+      if cc0 = pb then
+        match findMatchLengthWithLimitMin4 data prevM cm maxLength with
+        | none => none
+        | some len =>
+          if len ≠ 0 then phase1Take P lbs data curIx cm key cachedBackward len out b c
+          else none'
+      else none'
+  else none'
+
+/-- the single-slot bucket (`bucket_sweep == 1`) after the slot has been read (`prev`) and overwritten -/
+def phase2Single (lbs : Nat) (data : ByteArray) (mask curIx cm maxLength maxBackward bestLenIn prev : Nat)
+    (t : SweepSt) (b : Tab) (c : Common) : Option (Ret ⊕ SweepSt) :=
+  let backward := wsub curIx prev
+  let prevM := prev &&& (mask % U32)
+  match byteAt data (prevM + bestLenIn) with
+  | none => none
+  | some pb =>
+    if t.cc ≠ pb then some (.inl (false, t.s.out, b, c))
+    else if backward = 0 ∨ backward > maxBackward then some (.inl (false, t.s.out, b, c))
+    else
+      match findMatchLengthWithLimitMin4 data prevM cm maxLength with
+      | none => none
+      | some len =>
+        if len ≠ 0 then
+          let o : SR := { t.s.out with len := len, distance := backward, score := scoreBackward lbs len backward }
+          some (.inl (true, o, b, c))
+        else some (.inr t)
+
+/-- the bucket: one slot (`bucket_sweep == 1`) or a sweep over `bucket_sweep` slots -/
+def phase2 (P : BasicP) (lbs : Nat) (data : ByteArray) (mask curIx cm key maxLength maxBackward
+    bestLenIn : Nat) (t : SweepSt) (b : Tab) (c : Common) : Option ((Ret ⊕ SweepSt) × Tab) :=
+  if P.sweep = 1 then
+    match rd b key with
+    | none => none
+    | some prev =>
+      match wr b key (curIx % U32) with
+      | none => none
+      | some b =>
+        match phase2Single lbs data mask curIx cm maxLength maxBackward bestLenIn prev t b c with
+        | none => none
+        | some r => some (r, b)
+  else
+    -- `self.buckets_.slice().split_at(key).1[..bucket_sweep]`
+    if key + P.sweep ≤ b.size then
+      match sweepLoop lbs data mask curIx cm maxLength maxBackward b key P.sweep 0 t with
+      | none => none
+      | some t => some (.inr t, b)
+    else none
+
+/-- static dictionary (only if nothing was found) and the final store of `cur_ix` -/
+def phase3 (P : BasicP) (useDict : Bool) (lbs : Nat) (dict : Option (List DictItem)) (data : ByteArray)
+    (curIx cm key maxLength maxBackward maxDistance : Nat) (s : LoopSt) (b : Tab) (c : Common) :
+    Option Ret :=
+  let dictRes : Option (Bool × SR × Common) :=
+    match dict with
+    | some items =>
+      if useDict ∧ ¬ s.found then
+        searchInStaticDictionary lbs items data cm maxLength maxBackward maxDistance s.out c
+      else some (s.found, s.out, c)
+    | none => some (s.found, s.out, c)
+  match dictRes with
+  | none => none
+  | some (found, out, c) =>
+    if P.sweep = 0 then none          -- `wrapping_rem(0)`
+    else
+      match wr b (key + (curIx >>> 3) % P.sweep) (curIx % U32) with
+      | none => none
+      | some b => some (found, out, b, c)
+
+/-- `fn FindLongestMatch` of `BasicHasher<T>`; `useDict` = `USE_DICTIONARY() != 0`,
+`dict` = `dictionary.is_some()` together with the oracle's slots; `gap = 0` -/
+def findLongestMatch (P : BasicP) (useDict : Bool) (lbs : Nat) (dict : Option (List DictItem))
+    (data : ByteArray) (mask : Nat) (cache : List Int) (curIx maxLength maxBackward maxDistance : Nat)
+    (out : SR) (b : Tab) (c : Common) : Option Ret :=
+  let cm := curIx &&& mask
+  match BV.Hasher.Basic.hashAt P data cm with
+  | none => none
+  | some key =>
+  match byteAt data (cm + out.len) with
+  | none => none
+  | some cc0 =>
+  match cache[0]? with
+  | none => none
+  | some c0 =>
+  match phase1 P lbs data mask curIx cm key maxLength maxBackward (i32ToUsize c0) cc0
+      { out with lenXCode := 0 } b c with
+  | none => none
+  | some (.inl r) => some r
+  | some (.inr t) =>
+  match phase2 P lbs data mask curIx cm key maxLength maxBackward out.len t b c with
+  | none => none
+  | some (.inl r, _) => some r
+  | some (.inr t, b) =>
+    phase3 P useDict lbs dict data curIx cm key maxLength maxBackward maxDistance t.s b c
+
+end Basic
+
+/-! ## AdvHasher::FindLongestMatch -/
+
+namespace Adv
+
 /-- a candidate of length `len` at cached distance number `i`: `if len >= 3 || (len == 2 && i < 2) { … }` -/
 def cacheAccept (lbs i len backward : Nat) (s : LoopSt) : LoopSt :=
   if len ≥ 3 ∨ (len = 2 ∧ i < 2) then
     let score := scoreLast lbs len
     if s.bestScore < score then
       let score := if i ≠ 0 then wsub score (penaltyLast i) else score
-      if s.bestScore < score then
-        ⟨score, len, { s.out with len := len, distance := backward, score := score }, true⟩
-      else s
+      if s.bestScore < score then s.take len backward score else s
     else s
   else s
 
@@ -411,70 +454,58 @@ def cacheAccept (lbs i len backward : Nat) (s : LoopSt) : LoopSt :=
 def bucketAccept (lbs len backward : Nat) (s : LoopSt) : LoopSt :=
   if len ≠ 0 then
     let score := scoreBackward lbs len backward
-    if s.bestScore < score then
-      ⟨score, len, { s.out with len := len, distance := backward, score := score }, true⟩
-    else s
+    if s.bestScore < score then s.take len backward score else s
   else s
+
+/-- the body of the distance-cache loop once `backward = distance_cache[i] as usize` is known -/
+def cacheStepAt (lbs : Nat) (data : ByteArray) (mask curIx cm maxLength maxBackward i backward : Nat)
+    (s : LoopSt) : Option LoopSt :=
+  let prevIx := wsub curIx backward
+  if prevIx ≥ curIx ∨ backward > maxBackward then some s
+  else
+    let prevM := prevIx &&& mask
+    tryAt (guard data mask cm prevM s.bestLen)
+      (fun _ => findMatchLengthWithLimit data prevM cm maxLength)
+      (fun len => cacheAccept lbs i len backward s) s
 
 /-- one iteration of the distance-cache loop -/
 def cacheStep (lbs : Nat) (data : ByteArray) (mask curIx cm maxLength maxBackward : Nat)
     (cache : List Int) (i : Nat) (s : LoopSt) : Option LoopSt :=
   match cache[i]? with
   | none => none
-  | some ci =>
-    let backward := i32ToUsize ci
-    let prevIx := wsub curIx backward
-    if prevIx ≥ curIx ∨ backward > maxBackward then some s
-    else
-      let prevM := prevIx &&& mask
-      match guard data mask cm prevM s.bestLen with
-      | none => none
-      | some true => some s
-      | some false =>
-        match findMatchLengthWithLimit data prevM cm maxLength with
-        | none => none
-        | some len => some (cacheAccept lbs i len backward s)
+  | some ci => cacheStepAt lbs data mask curIx cm maxLength maxBackward i (i32ToUsize ci) s
 
-/-- the `while i > down` loop over the ring of the key's block; `bucketAt j` reads `bucket[j]` -/
+/-- one iteration of the `while i > down` loop for the table entry `prev`: (break?, state) -/
+def bucketStep (lbs : Nat) (data : ByteArray) (mask curIx cm maxLength maxBackward prev : Nat)
+    (s : LoopSt) : Option (Bool × LoopSt) :=
+  let backward := wsub curIx prev
+  if backward = 0 then some (false, s)
+  else
+    let prevM := prev &&& mask
+    match guard data mask cm prevM s.bestLen with
+    | none => none
+    | some g =>
+      if backward > maxBackward then some (true, s)
+      else if g then some (false, s)
+      else
+        match findMatchLengthWithLimitMin4 data prevM cm maxLength with
+        | none => none
+        | some len => some (false, bucketAccept lbs len backward s)
+
+/-- the `while i > down` loop over the ring of the key's block; `bucket j` reads `bucket[j]` -/
 def bucketLoop (lbs : Nat) (data : ByteArray) (mask curIx cm maxLength maxBackward blockMask : Nat)
     (bucket : Nat → Option Nat) : Nat → Nat → LoopSt → Option LoopSt
   | 0, _, s => some s
   | cnt + 1, i, s =>
-    let i := i - 1
-    match bucket (i &&& blockMask) with
-    | none => none
-    | some prev =>
-      let backward := wsub curIx prev
-      if backward = 0 then bucketLoop lbs data mask curIx cm maxLength maxBackward blockMask bucket cnt i s
-      else
-        let prevM := prev &&& mask
-        match guard data mask cm prevM s.bestLen with
-        | none => none
-        | some true =>
-          if backward > maxBackward then some s
-          else bucketLoop lbs data mask curIx cm maxLength maxBackward blockMask bucket cnt i s
-        | some false =>
-          if backward > maxBackward then some s
-          else
-            match findMatchLengthWithLimitMin4 data prevM cm maxLength with
-            | none => none
-            | some len =>
-              bucketLoop lbs data mask curIx cm maxLength maxBackward blockMask bucket cnt i
-                (bucketAccept lbs len backward s)
+    (bucket ((i - 1) &&& blockMask)).bind fun prev =>
+      loopBody (bucketStep lbs data mask curIx cm maxLength maxBackward prev s)
+        (bucketLoop lbs data mask curIx cm maxLength maxBackward blockMask bucket cnt (i - 1))
 
-/-- `fn FindLongestMatch` of `AdvHasher`; `numLast` = `params.num_last_distances_to_check` -/
-def findLongestMatch (P : AdvP) (numLast lbs : Nat) (dict : Option (List DictItem))
-    (data : ByteArray) (mask : Nat) (cache : List Int) (curIx maxLength maxBackward maxDistance : Nat)
-    (out : SR) (st : AdvSt) (c : Common) : Option (Bool × SR × AdvSt × Common) :=
+/-- the hash-table part: scan the key's ring, then store `cur_ix` and bump the counter -/
+def scan (P : AdvP) (lbs : Nat) (data : ByteArray) (mask curIx cm maxLength maxBackward : Nat)
+    (s : LoopSt) (st : AdvSt) : Option (LoopSt × AdvSt) :=
   match st with
   | ⟨num, buckets⟩ =>
-  let cm := curIx &&& mask
-  if cm > data.size then none        -- `data.split_at(cur_ix_masked)`
-  else
-  let s0 : LoopSt := ⟨out.score, out.len, { out with len := 0, lenXCode := 0 }, false⟩
-  match forRange (cacheStep lbs data mask curIx cm maxLength maxBackward cache) 0 numLast s0 with
-  | none => none
-  | some s =>
   match BV.Hasher.Adv.hashAt P data cm with
   | none => none
   | some key =>
@@ -502,15 +533,36 @@ def findLongestMatch (P : AdvP) (numLast lbs : Nat) (dict : Option (List DictIte
   | some buckets =>
   match wr num key ((n + 1) % U16) with
   | none => none
-  | some num =>
+  | some num => some (s, ⟨num, buckets⟩)
+
+/-- `if !is_match_found && dictionary.is_some() { SearchInStaticDictionary(.., shallow = false) }` -/
+def dictPhase (lbs : Nat) (dict : Option (List DictItem)) (data : ByteArray) (cm maxLength maxBackward
+    maxDistance : Nat) (s : LoopSt) (c : Common) : Option (Bool × SR × Common) :=
   match dict with
   | some items =>
     if ¬ s.found then
-      match searchInStaticDictionary lbs items data cm maxLength maxBackward maxDistance s.out c with
-      | none => none
-      | some (found, out, c) => some (found, out, ⟨num, buckets⟩, c)
-    else some (s.found, s.out, ⟨num, buckets⟩, c)
-  | none => some (s.found, s.out, ⟨num, buckets⟩, c)
+      if cm > data.size then none       -- `data.split_at(cur_ix_masked)`
+      else searchInStaticDictionary lbs items data cm maxLength maxBackward maxDistance s.out c
+    else some (s.found, s.out, c)
+  | none => some (s.found, s.out, c)
+
+/-- `fn FindLongestMatch` of `AdvHasher`; `numLast` = `params.num_last_distances_to_check` -/
+def findLongestMatch (P : AdvP) (numLast lbs : Nat) (dict : Option (List DictItem))
+    (data : ByteArray) (mask : Nat) (cache : List Int) (curIx maxLength maxBackward maxDistance : Nat)
+    (out : SR) (st : AdvSt) (c : Common) : Option (Bool × SR × AdvSt × Common) :=
+  let cm := curIx &&& mask
+  if cm > data.size then none        -- `data.split_at(cur_ix_masked)`
+  else
+  let s0 : LoopSt := ⟨out.score, out.len, { out with len := 0, lenXCode := 0 }, false⟩
+  match forRange (cacheStep lbs data mask curIx cm maxLength maxBackward cache) 0 numLast s0 with
+  | none => none
+  | some s =>
+  match scan P lbs data mask curIx cm maxLength maxBackward s st with
+  | none => none
+  | some (s, st) =>
+  match dictPhase lbs dict data cm maxLength maxBackward maxDistance s c with
+  | none => none
+  | some (found, out, c) => some (found, out, st, c)
 
 end Adv
 
@@ -521,37 +573,34 @@ namespace H9
 def kDistanceCacheIndex : List Nat := [0, 1, 2, 3, 0, 0, 0, 0, 0, 0, 1, 1, 1, 1, 1, 1]
 def kDistanceCacheOffset : List Int := [0, 0, 0, 0, -1, 1, -2, 2, -3, 3, -1, 1, -2, 2, -3, 3]
 
-abbrev LoopSt := Adv.LoopSt
-
 /-- `if len >= 3 || (len == 2 && i < 2) { if best_score < score { … } }` of the H9 cache loop -/
 def cacheAccept (lbs i len backward : Nat) (s : LoopSt) : LoopSt :=
   if len ≥ 3 ∨ (len = 2 ∧ i < 2) then
     let score := scoreLastH9 lbs len i
-    if s.bestScore < score then
-      ⟨score, len, { s.out with len := len, distance := backward, score := score }, true⟩
-    else s
+    if s.bestScore < score then s.take len backward score else s
   else s
 
-/-- one iteration of `for i in 0..H9_NUM_LAST_DISTANCES_TO_CHECK` -/
+/-- the body of the cache loop once `backward` is known -/
+def cacheStepAt (lbs : Nat) (data : ByteArray) (mask curIx cm maxLength maxBackward i backward : Nat)
+    (s : LoopSt) : Option LoopSt :=
+  let prevIx := wsub curIx backward
+  if prevIx ≥ curIx then some s
+  else if backward > maxBackward then some s
+  else
+    let prevM := prevIx &&& mask
+    tryAt (guard data mask cm prevM s.bestLen)
+      (fun _ => findMatchLengthWithLimit data prevM cm maxLength)
+      (fun len => cacheAccept lbs i len backward s) s
+
+/-- one iteration of `for i in 0..H9_NUM_LAST_DISTANCES_TO_CHECK`:
+`backward = (distance_cache[idx] as usize).wrapping_add(kDistanceCacheOffset[i] as usize)` -/
 def cacheStep (lbs : Nat) (data : ByteArray) (mask curIx cm maxLength maxBackward : Nat)
     (cache : List Int) (i : Nat) (s : LoopSt) : Option LoopSt :=
   match cache[kDistanceCacheIndex.getD i 0]? with
   | none => none
   | some ci =>
-    -- `(distance_cache[idx] as usize).wrapping_add(kDistanceCacheOffset[i] as usize)`
-    let backward := (i32ToUsize ci + i32ToUsize (kDistanceCacheOffset.getD i 0)) % U64
-    let prevIx := wsub curIx backward
-    if prevIx ≥ curIx then some s
-    else if backward > maxBackward then some s
-    else
-      let prevM := prevIx &&& mask
-      match Adv.guard data mask cm prevM s.bestLen with
-      | none => none
-      | some true => some s
-      | some false =>
-        match findMatchLengthWithLimit data prevM cm maxLength with
-        | none => none
-        | some len => some (cacheAccept lbs i len backward s)
+    cacheStepAt lbs data mask curIx cm maxLength maxBackward i
+      ((i32ToUsize ci + i32ToUsize (kDistanceCacheOffset.getD i 0)) % U64) s
 
 /-- loop state of the bucket scan: `prev_best_val` is carried along -/
 structure ScanSt where
@@ -559,97 +608,98 @@ structure ScanSt where
   pbv : Nat
 deriving Inhabited
 
+/-- `if len >= 4 { if best_score < score { …; if cm + best_len > mask { break }; prev_best_val = … } }`:
+(break?, state) -/
+def scanAccept (lbs : Nat) (data : ByteArray) (mask cm len backward : Nat) (t : ScanSt) :
+    Option (Bool × ScanSt) :=
+  if len ≥ 4 then
+    let score := scoreBackwardH9 lbs len backward
+    if t.s.bestScore < score then
+      if cm + len > mask then some (true, ⟨t.s.take len backward score, t.pbv⟩)
+      else
+        match byteAt data (cm + len) with
+        | none => none
+        | some v => some (false, ⟨t.s.take len backward score, v⟩)
+    else some (false, t)
+  else some (false, t)
+
+/-- one iteration of the `while i > down` loop of H9 for the table entry `prev`: (break?, state) -/
+def scanStep (lbs : Nat) (data : ByteArray) (mask curIx cm maxLength maxBackward prev : Nat)
+    (t : ScanSt) : Option (Bool × ScanSt) :=
+  let backward := wsub curIx prev
+  if backward = 0 then some (false, t)
+  else if backward > maxBackward then some (true, t)
+  else
+    let prevM := prev &&& mask
+    -- `prev_ix + best_len > mask || prev_best_val != data[prev_ix + best_len]`
+    if prevM + t.s.bestLen > mask then some (false, t)
+    else
+      match byteAt data (prevM + t.s.bestLen) with
+      | none => none
+      | some b =>
+        if t.pbv ≠ b then some (false, t)
+        else
+          match findMatchLengthWithLimit data prevM cm maxLength with
+          | none => none
+          | some len => scanAccept lbs data mask cm len backward t
+
 /-- the `while i > down` loop of H9 -/
 def bucketLoop (lbs : Nat) (data : ByteArray) (mask curIx cm maxLength maxBackward : Nat)
     (bucket : Nat → Option Nat) : Nat → Nat → ScanSt → Option ScanSt
   | 0, _, t => some t
   | cnt + 1, i, t =>
-    let i := i - 1
-    match bucket (i &&& BV.Hasher.H9.BLOCK_MASK) with
+    (bucket ((i - 1) &&& BV.Hasher.H9.BLOCK_MASK)).bind fun prev =>
+      loopBody (scanStep lbs data mask curIx cm maxLength maxBackward prev t)
+        (bucketLoop lbs data mask curIx cm maxLength maxBackward bucket cnt (i - 1))
+
+/-- `if max_length >= 4 && cur_ix_masked + best_len <= ring_buffer_mask { … }` -/
+def scan (P : H9P) (lbs : Nat) (data : ByteArray) (mask curIx cm maxLength maxBackward : Nat)
+    (s : LoopSt) (st : AdvSt) : Option (LoopSt × AdvSt) :=
+  match st with
+  | ⟨num, buckets⟩ =>
+  if maxLength ≥ 4 ∧ cm + s.bestLen ≤ mask then
+    match win data cm 4 with          -- `HashBytes(data.split_at(cur_ix_masked).1)`
     | none => none
-    | some prev =>
-      let backward := wsub curIx prev
-      if backward = 0 then bucketLoop lbs data mask curIx cm maxLength maxBackward bucket cnt i t
-      else if backward > maxBackward then some t
+    | some w =>
+      let key := P.hash w % U32
+      let start := key <<< BV.Hasher.H9.BLOCK_BITS
+      -- `split_at_mut(key << 8).1.split_at_mut(256).0`; the two asserts are then true
+      if start + 256 > buckets.size then none
       else
-        let prevM := prev &&& mask
-        -- `prev_ix + best_len > mask || prev_best_val != data[prev_ix + best_len]`
-        let skip : Option Bool :=
-          if prevM + t.s.bestLen > mask then some true
-          else match byteAt data (prevM + t.s.bestLen) with
-            | none => none
-            | some b => some (t.pbv ≠ b)
-        match skip with
+        match rd num key with
         | none => none
-        | some true => bucketLoop lbs data mask curIx cm maxLength maxBackward bucket cnt i t
-        | some false =>
-          match findMatchLengthWithLimit data prevM cm maxLength with
+        | some n =>
+          let bucketAt (j : Nat) : Option Nat := if j < 256 then rd buckets (start + j) else none
+          let down := if n > 256 then n - 256 else 0
+          match byteAt data (cm + s.bestLen) with
           | none => none
-          | some len =>
-            if len ≥ 4 then
-              let score := scoreBackwardH9 lbs len backward
-              if t.s.bestScore < score then
-                let s' : LoopSt := ⟨score, len, { t.s.out with len := len, distance := backward, score := score }, true⟩
-                if cm + len > mask then some ⟨s', t.pbv⟩       -- `break`
-                else
-                  match byteAt data (cm + len) with
-                  | none => none
-                  | some v => bucketLoop lbs data mask curIx cm maxLength maxBackward bucket cnt i ⟨s', v⟩
-              else bucketLoop lbs data mask curIx cm maxLength maxBackward bucket cnt i t
-            else bucketLoop lbs data mask curIx cm maxLength maxBackward bucket cnt i t
+          | some pbv =>
+            match bucketLoop lbs data mask curIx cm maxLength maxBackward bucketAt (n - down) n ⟨s, pbv⟩ with
+            | none => none
+            | some t =>
+              match wr buckets (start + (n &&& BV.Hasher.H9.BLOCK_MASK)) (curIx % U32) with
+              | none => none
+              | some buckets =>
+                match wr num key ((n + 1) % U16) with
+                | none => none
+                | some num => some (t.s, ⟨num, buckets⟩)
+  else some (s, ⟨num, buckets⟩)
 
 /-- `fn FindLongestMatch` of `H9` -/
 def findLongestMatch (P : H9P) (lbs : Nat) (dict : Option (List DictItem))
     (data : ByteArray) (mask : Nat) (cache : List Int) (curIx maxLength maxBackward maxDistance : Nat)
     (out : SR) (st : AdvSt) (c : Common) : Option (Bool × SR × AdvSt × Common) :=
-  match st with
-  | ⟨num, buckets⟩ =>
   let cm := curIx &&& mask
   let s0 : LoopSt := ⟨out.score, out.len, { out with lenXCode := 0 }, false⟩
   match forRange (cacheStep lbs data mask curIx cm maxLength maxBackward cache) 0 16 s0 with
   | none => none
   | some s =>
-  let scan : Option (LoopSt × Tab × Tab) :=
-    if maxLength ≥ 4 ∧ cm + s.bestLen ≤ mask then
-      match win data cm 4 with          -- `HashBytes(data.split_at(cur_ix_masked).1)`
-      | none => none
-      | some w =>
-        let key := P.hash w % U32
-        let start := key <<< BV.Hasher.H9.BLOCK_BITS
-        -- `split_at_mut(key << 8).1.split_at_mut(256).0`; the two asserts are then true
-        if start + 256 > buckets.size then none
-        else
-          match rd num key with
-          | none => none
-          | some n =>
-            let bucketAt (j : Nat) : Option Nat := if j < 256 then rd buckets (start + j) else none
-            let down := if n > 256 then n - 256 else 0
-            match byteAt data (cm + s.bestLen) with
-            | none => none
-            | some pbv =>
-              match bucketLoop lbs data mask curIx cm maxLength maxBackward bucketAt (n - down) n ⟨s, pbv⟩ with
-              | none => none
-              | some t =>
-                match wr buckets (start + (n &&& BV.Hasher.H9.BLOCK_MASK)) (curIx % U32) with
-                | none => none
-                | some buckets =>
-                  match wr num key ((n + 1) % U16) with
-                  | none => none
-                  | some num => some (t.s, num, buckets)
-    else some (s, num, buckets)
-  match scan with
+  match scan P lbs data mask curIx cm maxLength maxBackward s st with
   | none => none
-  | some (s, num, buckets) =>
-  match dict with
-  | some items =>
-    if ¬ s.found then
-      if cm > data.size then none       -- `data.split_at(cur_ix_masked)`
-      else
-      match searchInStaticDictionary lbs items data cm maxLength maxBackward maxDistance s.out c with
-      | none => none
-      | some (found, out, c) => some (found, out, ⟨num, buckets⟩, c)
-    else some (s.found, s.out, ⟨num, buckets⟩, c)
-  | none => some (s.found, s.out, ⟨num, buckets⟩, c)
+  | some (s, st) =>
+  match Adv.dictPhase lbs dict data cm maxLength maxBackward maxDistance s c with
+  | none => none
+  | some (found, out, c) => some (found, out, st, c)
 
 end H9
 
